@@ -79,8 +79,27 @@ func isNilWallet(w keystorev3.WalletFile) bool {
 }
 
 // readLib calls the code under test. A panic is returned as a violation of clause.
+//
+// Caller-owned memory: file and password are handed over as sub-slices of ONE buffer, each
+// followed by spare capacity; the call must leave all of it untouched, and the buffer is
+// overwritten as soon as the call returns - whatever the accessors of the returned wallet
+// report afterwards cannot live in the caller's bytes.
 func readLib(clause string, file, password []byte) (w keystorev3.WalletFile, err error, pv *evid.Violation) {
-	pv = evid.Guard(clause, func() { w, err = keystorev3.ReadWalletFile(file, password) })
+	const guard = 32
+	arena := bytes.Repeat([]byte{0xA5}, len(file)+len(password)+2*guard)
+	f := arena[:len(file)]
+	copy(f, file)
+	p := arena[len(file)+guard : len(file)+guard+len(password)]
+	copy(p, password)
+	before := append([]byte{}, arena...)
+	pv = evid.Guard(clause, func() { w, err = keystorev3.ReadWalletFile(f, p) })
+	if pv == nil && !bytes.Equal(arena, before) {
+		v := evid.V("inputs-not-modified", "ReadWalletFile wrote to the caller's file/password bytes or to the spare capacity behind them")
+		pv = &v
+	}
+	for i := range arena {
+		arena[i] ^= 0xFF
+	}
 	return
 }
 
@@ -322,16 +341,37 @@ type LibFileCase struct {
 }
 
 func construct(ctor, password string, secret []byte) (w keystorev3.WalletFile, pv *evid.Violation) {
+	w, _, pv = constructKeep(ctor, password, secret)
+	return
+}
+
+// constructKeep also returns a function that reports whether what the caller handed to the
+// constructor (the secret bytes with the spare capacity behind them, or the key pair) has
+// been written to since.
+func constructKeep(ctor, password string, secret []byte) (w keystorev3.WalletFile, intact func() bool, pv *evid.Violation) {
+	intact = func() bool { return true }
 	pv = evid.Guard("create-no-panic", func() {
 		switch ctor {
-		case "light":
-			w = keystorev3.NewWalletFileLight(password, secp256k1.KeyPairFromBytes(secret))
-		case "standard":
-			w = keystorev3.NewWalletFileStandard(password, secp256k1.KeyPairFromBytes(secret))
-		case "custom-light":
-			w = keystorev3.NewWalletFileCustomBytesLight(password, append([]byte{}, secret...))
-		case "custom-standard":
-			w = keystorev3.NewWalletFileCustomBytesStandard(password, append([]byte{}, secret...))
+		case "light", "standard":
+			kp := secp256k1.KeyPairFromBytes(secret)
+			addr := kp.Address
+			intact = func() bool { return bytes.Equal(kp.PrivateKeyBytes(), secret) && kp.Address == addr }
+			if ctor == "light" {
+				w = keystorev3.NewWalletFileLight(password, kp)
+			} else {
+				w = keystorev3.NewWalletFileStandard(password, kp)
+			}
+		case "custom-light", "custom-standard":
+			buf := bytes.Repeat([]byte{0xA5}, len(secret)+32)
+			in := buf[:len(secret)]
+			copy(in, secret)
+			before := append([]byte{}, buf...)
+			intact = func() bool { return bytes.Equal(buf, before) }
+			if ctor == "custom-light" {
+				w = keystorev3.NewWalletFileCustomBytesLight(password, in)
+			} else {
+				w = keystorev3.NewWalletFileCustomBytesStandard(password, in)
+			}
 		default:
 			panic("harness: unknown constructor " + ctor)
 		}
@@ -348,7 +388,7 @@ func judgeLibFile(c LibFileCase) (vs []evid.Violation) {
 	if keypairCtor && !validScalar(secret) {
 		return []evid.Violation{evid.V("harness", "keypair constructor with a secret that is not a valid scalar")}
 	}
-	w, pv := construct(c.Ctor, password, secret)
+	w, inputsIntact, pv := constructKeep(c.Ctor, password, secret)
 	if pv != nil {
 		return []evid.Violation{*pv}
 	}
@@ -395,7 +435,24 @@ func judgeLibFile(c LibFileCase) (vs []evid.Violation) {
 				delete(removed, op.Key)
 			}
 		}
+		// serialising is a read: the metadata map (with the caller's values in it) and the key stay as they are,
+		// and serialising twice gives the same document
+		mdBefore := canon(w.Metadata())
 		file = w.JSON()
+		if mdAfter := canon(w.Metadata()); mdAfter != mdBefore {
+			vs = append(vs, evid.V("json-is-a-read", "Metadata() was %s before JSON() and is %s after it", mdBefore, mdAfter))
+		}
+		if got := w.PrivateKey(); !bytes.Equal(got, secret) {
+			vs = append(vs, evid.V("json-is-a-read", "PrivateKey() is %x after JSON(), want %x", got, secret))
+		}
+		a, errA := canonText(string(file))
+		b, errB := canonText(string(w.JSON()))
+		if errA != nil || errB != nil || a != b {
+			vs = append(vs, evid.V("json-is-a-read", "two calls of JSON() on the same wallet give different documents: %s / %s", a, b))
+		}
+		if !inputsIntact() {
+			vs = append(vs, evid.V("inputs-not-modified", "the %s constructor or JSON() wrote to the key material the caller handed over (or to the spare capacity behind it)", c.Ctor))
+		}
 	}); pv != nil {
 		return append(vs, *pv)
 	}
@@ -1042,6 +1099,9 @@ func genExtFile(rt *rapid.T, wrongK int, cheap bool, forceKDF string) (ExtFileCa
 	return c, nt, cl
 }
 
+// offerTamper, when set by TestCheck, receives tamper cases for the concurrent phase.
+var offerTamper func(TamperCase)
+
 // sweep judges every single-byte tamper and the parameter changes of one intact file.
 func sweep(rt *rapid.T, k *evid.Kind[TamperCase], file []byte, pw, secret []byte, origin string) {
 	view, vs := viewFile(file, len(secret))
@@ -1054,6 +1114,10 @@ func sweep(rt *rapid.T, k *evid.Kind[TamperCase], file []byte, pw, secret []byte
 		c.CheckBase = first
 		first = false
 		k.Check(rt, c, true, "tamper:"+origin+":"+c.Field)
+		if offerTamper != nil && (c.Field == "n" || c.Field == "r" || c.Field == "p" || c.Field == "c" || c.Pos%8 == 0) {
+			c.CheckBase = true // under concurrency: the intact file is read, then the altered copy
+			offerTamper(c)
+		}
 	}
 	for _, f := range []struct {
 		name string
@@ -1110,6 +1174,31 @@ func kinds(rec *evid.Recorder) (*evid.Kind[LibFileCase], *evid.Kind[ExtFileCase]
 	return evid.NewKind(rec, "libfile", judgeLibFile), evid.NewKind(rec, "extfile", judgeExtFile), evid.NewKind(rec, "tamper", judgeTamper)
 }
 
+// more holds the kinds for histories and concurrent callers (registered in TestReplay too).
+type more struct {
+	kHist      *evid.Kind[HistCase]
+	poolLib    *evid.Pool[LibFileCase]
+	poolExt    *evid.Pool[ExtFileCase]
+	poolTamper *evid.Pool[TamperCase]
+	poolHist   *evid.Pool[HistCase]
+}
+
+func moreKinds(rec *evid.Recorder, on bool) more {
+	max := func(n int) int {
+		if on {
+			return n
+		}
+		return 0
+	}
+	return more{
+		kHist:      evid.NewKind(rec, "hist", judgeHist),
+		poolLib:    evid.NewPool(rec, "concurrent-libfile", judgeLibFile, max(16)),
+		poolExt:    evid.NewPool(rec, "concurrent-extfile", judgeExtFile, max(16)),
+		poolTamper: evid.NewPool(rec, "concurrent-tamper", judgeTamper, max(64)),
+		poolHist:   evid.NewPool(rec, "concurrent-hist", judgeHist, max(16)),
+	}
+}
+
 func TestCheck(t *testing.T) {
 	rec := evid.Start("C07", rule)
 	defer rec.Finish()
@@ -1117,19 +1206,32 @@ func TestCheck(t *testing.T) {
 	rec.Assume("not asserted: detection of IV tampering (the V3 MAC does not cover the IV); PBKDF2 c <= 0; freshness holds up to a 2^-100 collision chance; metadata numbers are compared as the float64 values JSON decoding yields")
 	rec.Assume("passwords that HMAC-SHA-256 maps to the same key block (trailing NUL bytes below 64 bytes; a password longer than 64 bytes and its SHA-256) are the same password for every V3 implementation and are not used as 'another password'")
 	rec.Assume("the library draws salt, IV and id from crypto/rand, so two runs judge different files; verdicts do not depend on the drawn values")
+	rec.Assume("kind hist (histories) and the concurrent kinds judge each read by the independent reader's verdict for that file and password alone; every read hands file and password over as sub-slices of one buffer with spare capacity, which must come back untouched and is overwritten right after the call")
 	kLib, kExt, kTamper := kinds(rec)
+	m := moreKinds(rec, true)
 	rec.Corpus(t)
 
 	rec.Rapid(t, "libfile", rec.N(150, 1500), func(rt *rapid.T) {
 		c, nt, cl := genLibFile(rt, 2)
 		kLib.Check(rt, c, nt, cl...)
+		m.poolLib.Offer(c)
 	})
 
 	rec.Rapid(t, "extfile", rec.N(300, 3000), func(rt *rapid.T) {
 		c, nt, cl := genExtFile(rt, 2, false, "")
 		kExt.Check(rt, c, nt, cl...)
+		m.poolExt.Offer(c)
 	})
 
+	// histories: related files created and read one after the other in this process
+	rec.Rapid(t, "hist", rec.N(200, 1500), func(rt *rapid.T) {
+		c, cl := genHist(rt, !rec.Thorough())
+		m.kHist.Check(rt, c, true, cl...)
+		m.poolHist.Offer(c)
+	})
+
+	offerTamper = m.poolTamper.Offer
+	defer func() { offerTamper = nil }()
 	// full tamper sweeps over files written by the independent implementation (cheap parameters)
 	for _, kdf := range []string{"scrypt", "pbkdf2"} {
 		kdf := kdf
@@ -1160,6 +1262,11 @@ func TestCheck(t *testing.T) {
 		}
 		sweep(rt, kTamper, w.JSON(), pw, secret, "library")
 	})
+	// the same judges from several goroutines at once (state shared between calls)
+	m.poolLib.Run(t, 8, 2, 16)
+	m.poolExt.Run(t, 8, 2, 16)
+	m.poolTamper.Run(t, 8, 3, 32)
+	m.poolHist.Run(t, 8, 2, 8)
 	fresh.Lock()
 	rec.Extra("library_files_with_pairwise_distinct_salt_and_iv", len(fresh.salts))
 	fresh.Unlock()
@@ -1168,5 +1275,6 @@ func TestCheck(t *testing.T) {
 func TestReplay(t *testing.T) {
 	rec := evid.Start("C07", rule)
 	kinds(rec)
+	moreKinds(rec, false)
 	rec.Replay(t)
 }
